@@ -31,7 +31,7 @@ def constOp : List (Act × String) :=
    (.eq, "compareConst"), (.ne, "compareConst"), (.lt, "compareConst"), (.le, "compareConst"),
    (.gt, "compareConst"), (.ge, "compareConst")]
 
-/-- the map before d04f498: comparisons have no folding function -/
+/-- the map before b3f92e0: comparisons have no folding function -/
 def constOpBeforeR3 : List (Act × String) := constOp.take 15
 
 /-- interp/op.go: what each folding function hands to go/constant, and the Go operator of its typed arms -/
@@ -80,7 +80,7 @@ def constToken : List (Act × Tok) :=
    (.andNot, .andNot), (.shl, .shl), (.shr, .shr), (.neg, .sub), (.pos, .add), (.bitNot, .xor), (.not, .not),
    (.eq, .eql), (.ne, .neq), (.lt, .lss), (.le, .leq), (.gt, .gtr), (.ge, .geq)]
 
-/-- the checks around the folds as they stand after the repairs of the third round (ebd86cd … 04c8232) -/
+/-- the checks around the folds as they stand after the repairs of the third round (b080dc4 … ce5712d) -/
 def checkFacts : CheckFacts :=
   { constExprBin := true, constExprUn := true, overflowBin := true, overflowUn := true,
     intBitsMax := some 512, shiftCountMax := some 1074, shiftClamp := 512, quoIntExact := true,
